@@ -26,6 +26,48 @@ def _leaves(cond, failing_outcome):
     return [(tree, oc)]
 
 
+_REV = {}
+
+
+def _caller_scopes(F, src, depth=3):
+    """Class scopes of the (transitive) callers of a file-local helper: the helper reads the field on
+    behalf of those classes, so the rejection belongs to them (a block of parsing moved into an
+    anonymous-namespace function or a lambda keeps its ledger key)."""
+    rev = _REV.get(id(F))
+    if rev is None:
+        rev = {}
+        for k, outs in F.callgraph().items():
+            for o in outs:
+                rev.setdefault(o, set()).add(k)
+        _REV.clear()
+        _REV[id(F)] = rev
+    scopes, seen, frontier = set(), {src.key}, [src.key]
+    for _ in range(depth):
+        nxt = []
+        for k in frontier:
+            for c in rev.get(k, ()):
+                if c in seen or c not in F.fns:
+                    continue
+                seen.add(c)
+                cf = F.fns[c]
+                if cf.cls and not cf.is_lambda:
+                    scopes.add(strip_targs(cf.cls))
+                else:
+                    nxt.append(c)
+        frontier = nxt
+    return scopes
+
+
+def _scopes(eng, fn, lab, info):
+    src_fn = strip_targs(info.get("fn") or fn.base)
+    src = eng.F.fns.get(lab[1]) if isinstance(lab, tuple) and len(lab) > 1 else None
+    if src is not None and (src.is_lambda or "(anonymous namespace)" in src.name) :
+        cs = _caller_scopes(eng.F, src)
+        if cs:
+            return sorted(cs)
+    return [src_fn.rsplit("::", 1)[0] if src_fn.count("::") >= 2 else src_fn]
+
+
 def rejections(eng, fn):
     """[(key, site, text)] key = (field fn, field var, op, const)"""
     ft = eng.ft[fn.key]
@@ -61,13 +103,15 @@ def rejections(eng, fn):
                     labs = [x for x in ft.labels(side, cb.id) if is_src(x)]
                     for lab in labs:
                         info = ft.label_info.get(lab) or eng.label_info.get(lab) or {}
-                        src_fn = strip_targs(info.get("fn") or fn.base)
-                        scope = src_fn.rsplit("::", 1)[0] if src_fn.count("::") >= 2 else src_fn
+                        if isinstance(sd, dict) and sd.get("k") == "field" and info.get("var") and \
+                                info.get("dest_field") and info["var"] != sd.get("n") and lab[1] == fn.key:
+                            continue    # read into another field of the same record (labels are per record)
                         cal = (info.get("callee") or "?").replace("draco::", "")
                         prim = cal.startswith(("DecoderBuffer::", "DecodeVarint", "DecodeSymbols")) or "BitDecoder" in cal
                         rd = "%s/%s" % (cal, info.get("iw", "?")) if prim else "record/%s" % info.get("iw", "?")
-                        key = "%s | %s | %s %d" % (scope.replace("draco::", ""), rd, o, int(k))
-                        out.append((key, fn.site(cb.tloc or ""), cb.condsrc, info.get("var") or "value"))
+                        for scope in _scopes(eng, fn, lab, info):
+                            key = "%s | %s | %s %d" % (scope.replace("draco::", ""), rd, o, int(k))
+                            out.append((key, fn.site(cb.tloc or ""), cb.condsrc, info.get("var") or "value"))
     return out
 
 
